@@ -79,6 +79,26 @@ class Watched(PDUData):
         return PDUData.get_data(self, dlen)
 
 
+class CountedList(list):
+    """a list that counts how often its length is asked for: a get_context / Any.decode loop
+    that stops advancing is reported instead of hanging the path"""
+
+    asks = 0
+    limit = 0
+
+    def __len__(self):
+        self.asks += 1
+        if self.asks > self.limit:
+            raise Violation("does-not-terminate", asks=self.asks)
+        return list.__len__(self)
+
+
+def counted(tags):
+    c = CountedList(tags)
+    c.limit = 40 * (list.__len__(c) + 2)
+    return c
+
+
 def listed(data, lo, hi):
     """the same octets held as a Python list of (symbolic) ints of concrete length: forks once
     per length, after which the engine works with cheap list operations instead of a
@@ -333,10 +353,11 @@ def decode_total(d, n, lows, sub=None, lo=0):
     check_stream(d, data, n)
 
 
-@meta(bounds="a single Tag decoded from EVERY octet string of length 0..n (n=7: long enough for extended number + "
-             "255-escape + 4 length octets + content), length and every octet symbolic; split by the low nibble "
-             "of the first octet (empty string in the part of 0)",
-      outside="buffers longer than n octets")
+@meta(bounds="a single Tag decoded from EVERY octet string of length 0..n (n=7 quick, 12 thorough: long enough for "
+             "extended number + 255-escape + 4 length octets + content), length and every octet symbolic; split "
+             "by the low nibble of the first octet (empty string in the part of 0)",
+      outside="buffers longer than n octets (so a 254/255 escape announcing more content than fits is always seen "
+              "truncated here; complete tags with large contents: tag_rt)")
 def decode_one(d, n, lows, sub=None):
     data = listed(d.bytes(0, n, 'octets'), 0, n)
     restrict(d, data, 16, lows, sub)
@@ -402,7 +423,7 @@ CLS_OF = {'app': APP, 'bool': APP, 'ctx': CTX, 'open': OPEN, 'close': CLOSE}
              "symbolic, first = the first octet of each content symbolic and the rest fixed octets that read as "
              "tag headers once the stream is out of step (2E 19 FE 65 0F), none = all fixed.  quick: remove with "
              "first (group) / none (escape, ext); replace and insert with none for group, replace for escape, "
-             "insert for ext.  thorough: remove with all (group) / first (escape, ext); replace and insert with "
+             "insert (not in front of the first octet) for ext.  thorough: remove with all (group) / first (escape, ext); replace and insert with "
              "first (group) / none (escape, ext)",
       outside="other shapes; more than one edit; the content octets that the instance keeps fixed")
 def decode_mutated(d, shapes, op, symdata='all', positions=None):
@@ -469,13 +490,14 @@ def build_list(d, lo, hi, alphabet, prefix):
     return classes, numbers, tags
 
 
-@meta(bounds="tag lists of every length lo..hi whose classes are symbolic over the instance's alphabet (all = "
-             "application/context/opening/closing; ctx+brackets; brackets = opening/closing only, which reaches "
-             "balanced depth 4 and 5) and whose context/opening/closing numbers are symbolic 0..2; context number "
-             "asked for symbolic 0..2; instances are split by the classes of the first tags",
-      outside="longer lists (all: > 5 quick / 6 thorough; ctx+brackets: > 8; brackets: > 10); tag numbers above 2 "
-              "(only equality with the requested context matters); whether the closing tag's number equals the "
-              "opening tag's (the statement asks for balance only)")
+@meta(bounds="tag lists (built from Tag objects, not octets) of every length lo..hi whose classes are symbolic over "
+             "the instance's alphabet and whose context/opening/closing numbers are symbolic 0..2; the context "
+             "number asked for is symbolic 0..2; instances are split by the classes of the first tags.  quick: all "
+             "four classes up to 5 tags, opening/closing only up to 8 tags (every bracket shape, balanced depth "
+             "<= 4).  thorough: all four classes up to 7 tags, context/opening/closing up to 8 tags (balanced depth "
+             "4 around context elements), opening/closing only up to 10 tags (balanced depth 5)",
+      outside="longer lists; tag numbers above 2 (only equality with the requested context matters); whether the "
+              "closing tag's number equals the opening tag's (the statement asks for balance only)")
 def nesting(d, lo, hi, alphabet, prefix):
     classes, numbers, tags = build_list(d, lo, hi, ALPHABETS[alphabet], prefix)
     context = d.int(0, 2, 'context')
@@ -483,7 +505,7 @@ def nesting(d, lo, hi, alphabet, prefix):
 
     # --- TagList.get_context
     want = R.find_context(classes, numbers, context)
-    tl = TagList(list(tags))
+    tl = TagList(counted(tags))
     got = None
     refused = False
     try:
@@ -517,7 +539,7 @@ def nesting(d, lo, hi, alphabet, prefix):
 
     # --- Any.decode / Any.encode
     k, balanced = R.any_prefix(classes)
-    src = TagList(list(tags))
+    src = TagList(counted(tags))
     a = Any()
     refused = False
     try:
@@ -602,7 +624,7 @@ def instances(tier):
                             label="beyond-bound,n=5,lows=%s" % lows))
     # decode_one
     for lows in ([0, 1, 8, 9], [2, 3, 4, 10, 11, 12], [5], [13], [6, 7, 14, 15]):
-        out.append(Inst(decode_one, dict(n=7, lows=lows), budget=b))
+        out.append(Inst(decode_one, dict(n=7 if q else 12, lows=lows), budget=b))
     # decode_mutated (symdata: which content octets of the valid stream are symbolic)
     if q:
         out.append(Inst(decode_mutated, dict(shapes=['group'], op='remove', symdata='first'), budget=b))
@@ -614,7 +636,7 @@ def instances(tier):
         for part in ([0, 8], [8, 9], [9, 99]):
             out.append(Inst(decode_mutated, dict(shapes=['escape'], op='replace', symdata='none', positions=part),
                             budget=b))
-        for part in ([0, 1], [1, 2], [2, 3], [3, 99]):
+        for part in ([1, 3], [3, 99]):      # position 0 (302 paths) only in thorough
             out.append(Inst(decode_mutated, dict(shapes=['ext'], op='insert', symdata='none', positions=part),
                             budget=b))
     else:
